@@ -9,6 +9,7 @@ import (
 	"crypto"
 	"crypto/ed25519"
 	"crypto/rsa"
+	"crypto/sha1"
 	"crypto/sha256"
 	"crypto/x509"
 	"crypto/x509/pkix"
@@ -128,15 +129,22 @@ func c11ShapedRSA(full *rsa.PrivateKey, shape string) *rsa.PrivateKey {
 // ---------------------------------------------------------------------------
 // X509Data
 
+// c11Crt is an item of X509Data: a certificate (kind rsa | ec | garbage) or a hint (kind is | sn | ski:
+// X509IssuerSerial / X509SubjectName / X509SKI taken from the certificate of key pair N).
 type c11Crt struct {
-	Kind string `json:"kind"` // rsa | ec | garbage
-	N    string `json:"n"`    // name of the key pair whose modulus the certificate carries
-	E    string `json:"e"`    // F4 | 3
+	Kind string `json:"kind"`
+	N    string `json:"n"` // name of the key pair whose modulus the certificate carries
+	E    string `json:"e"` // F4 | 3
 }
+
+func (c c11Crt) isCert() bool { return c.Kind == "rsa" || c.Kind == "ec" || c.Kind == "garbage" }
+
 type c11X509 struct {
 	Data  bool     `json:"data"`
-	Certs []c11Crt `json:"certs"`
+	Items []c11Crt `json:"items"` // children of X509Data in document order
+	Certs []c11Crt `json:"certs"` // the certificates among them
 	Ws    bool     `json:"ws"`
+	Split bool     `json:"split"` // every item in an X509Data element of its own
 }
 
 var c11CertCache sync.Map
@@ -224,40 +232,65 @@ func c11AddX509(ctx *xeCtx, el *etree.Element, x c11X509) {
 			el.AddChild(ki)
 		}
 	}
-	xd := ki.CreateElement("ds:X509Data")
-	if len(x.Certs) == 0 {
-		// an X509Data that identifies the key by something else than a certificate
-		switch ctx.rng.Intn(3) {
-		case 0:
-			xd.CreateElement("ds:X509SubjectName").SetText("CN=sp.example.com")
-		case 1:
-			is := xd.CreateElement("ds:X509IssuerSerial")
-			is.CreateElement("ds:X509IssuerName").SetText("CN=verif")
-			is.CreateElement("ds:X509SerialNumber").SetText("12345")
-		}
-		return
+	items := x.Items
+	if items == nil {
+		items = x.Certs
 	}
-	for _, c := range x.Certs {
-		xd.CreateElement("ds:X509Certificate").SetText(c11CertText(ctx, c, x.Ws))
+	var xd *etree.Element
+	if !x.Split || len(items) == 0 {
+		xd = ki.CreateElement("ds:X509Data")
+	}
+	for _, it := range items {
+		if x.Split {
+			xd = ki.CreateElement("ds:X509Data")
+		}
+		if it.isCert() {
+			xd.CreateElement("ds:X509Certificate").SetText(c11CertText(ctx, it, x.Ws))
+			continue
+		}
+		// a hint: what identifies the certificate of key pair it.N without embedding it
+		crt := key(it.N).Cert
+		switch it.Kind {
+		case "is":
+			is := xd.CreateElement("ds:X509IssuerSerial")
+			is.CreateElement("ds:X509IssuerName").SetText(crt.Issuer.String())
+			is.CreateElement("ds:X509SerialNumber").SetText(crt.SerialNumber.String())
+		case "sn":
+			xd.CreateElement("ds:X509SubjectName").SetText(crt.Subject.String())
+		case "ski":
+			ski := crt.SubjectKeyId
+			if len(ski) == 0 {
+				h := sha1.Sum(crt.RawSubjectPublicKeyInfo)
+				ski = h[:]
+			}
+			xd.CreateElement("ds:X509SKI").SetText(base64.StdEncoding.EncodeToString(ski))
+		default:
+			panic("harness: unknown X509Data item " + it.Kind)
+		}
 	}
 }
 
 // c11Build concretises the element of a vector: the term evaluator of xmlenc_helpers.go builds the
 // tree with the X509Data of the levels Decrypt visits left out, then every such level gets the
 // X509Data of its descriptor.  The root is an EncryptedKey when its algorithm is a key transport.
-func c11Build(ctx *xeCtx, v *c11Vec) *etree.Element {
-	stripped := c11StripPathCerts(v.El, len(v.X509))
+func c11Build(ctx *xeCtx, v *c11Vec) *etree.Element { return c11BuildEl(ctx, v.El, v.X509) }
+
+// c11BuildEl builds a symbolic element whose levels (the element, the first EncryptedKey below every
+// block-cipher level) carry the X509Data of the descriptors x509, in the package's lexical form.
+func c11BuildEl(ctx *xeCtx, e xeEl, x509 []c11X509) *etree.Element {
+	stripped := c11StripPathCerts(e, len(x509))
 	tag := "EncryptedData"
-	if refKtURI(v.El.Em) != "" {
+	if refKtURI(e.Em) != "" {
 		tag = "EncryptedKey"
 	}
 	root := ctx.build(stripped, tag)
-	el := root
-	for i := range v.path() {
-		if i >= len(v.X509) || el == nil {
+	el, lvl := root, &e
+	for i := 0; i < len(x509) && el != nil; i++ {
+		c11AddX509(ctx, el, x509[i])
+		if refBlockByName(lvl.Em) == nil || len(lvl.Eks) == 0 {
 			break
 		}
-		c11AddX509(ctx, el, v.X509[i])
+		lvl = &lvl.Eks[0]
 		el = xeChild(xeChild(el, "KeyInfo"), "EncryptedKey")
 	}
 	return root
